@@ -39,6 +39,11 @@ def build_cases(tier):
         cases += common.split_call_case(c, vs)
     for c in F.func3(tier):
         cases.append(dict(c, variants=vs))
+    # host function with an inlined helper whose label is a textual suffix / prefix of the host's (ra save / restore placement)
+    from .c05 import is_f05b
+
+    for c in F.names_inline():
+        cases.append(dict(c, variants=[v for v in vs if not v["tail_call_optimization"]], family=("W-F05b" if is_f05b(c["names"]) else c["family"])))
     for c in F.w_tailcall():
         cases.append(dict(c, variants=[v for v in vs if not v["inline_functions"]]))
     for c in F.func_cyclic():
